@@ -6,13 +6,14 @@ import GV.Driver.LinkOps
 import GV.Driver.ScopeOps
 import GV.Driver.LitOps
 import GV.Driver.ReplOps
+import GV.Driver.CfOps
 /-
 gvdriver: reads the oracle's operation lines on stdin and answers each with the model's result, in the
 oracle's output format.  Core-only (links as a native executable).
 -/
 open GV.Driver
 
-def handlers : List Handler := [hashOps, flagOps, typeOps, namingOps, linkOps, scopeOps, litOps, replOps]
+def handlers : List Handler := [hashOps, flagOps, typeOps, namingOps, linkOps, scopeOps, litOps, replOps, cfOps]
 
 def step (st : St) (line : String) : St × String :=
   let f := line.splitOn " "
